@@ -227,7 +227,7 @@ def judge (c out : List String) : Verdict :=
       let triv := d.feats.isEmpty && d.seq.length < 70
       { corr := out == m, judge := if inDom then some j else none,
         cls := (if triv then "triv:" else "") ++ "layout/" ++ lenClass d.seq.length
-               ++ (if !ℓ.comments.isEmpty then "/kf:C14-hash-comment" else ""),
+               ++ (if !ℓ.comments.isEmpty then "/comments" else ""),
         detail := if out == m && (j || !inDom) then "" else lineOf m }
   | _ => { corr := false, judge := none, cls := "bad-case", detail := "bad case" }
 
